@@ -139,6 +139,53 @@ theorem cleartext_after_mitm_connect_has_no_tls_state (k : Nat) (s' : St) (it : 
   rw [h1, h2] at this
   exact mem_run_of_at? sd base {} 0 [] items k s' it h _ (by simpa using this)
 
+/-! ### Handshakes that fail -/
+
+/-- **A failed handshake changes no session state**: a MITM CONNECT whose TLS handshake fails leaves
+the loop with exactly the state a plain request leaves behind (`stAfter s`: nothing re-pointed,
+nothing newly marked), on the same connection. -/
+theorem failed_handshake_changes_no_session_state (s : St) (i c : Nat) (rq : ReqB) (rs : ResB)
+    (hq : rq ≠ .hijack) (hs : rs ≠ .hijack) :
+    (handleItem sd s i c (.connectMitmFail rq rs)).2 = .again (stAfter s) ∧
+    (handleItem sd s i c (.connectMitmFail rq rs)).2 = (handleItem false s i c (.x false .pass .pass (.ok 200 false))).2 := by
+  cases rq <;> cases rs <;> simp_all [handleItem, handleMitmFail, handleX, rqSkip]
+
+/-- After handshakes that failed - and tunnels carrying cleartext - on a plain listener connection,
+every request is plain HTTP on an insecure session without TLS state: the CONNECT whose handshake
+failed at index `j` is just another item that is not a (successful) TLS MITM CONNECT. -/
+theorem after_failed_handshake_traffic_is_plain (j k : Nat) (rq : ReqB) (rs : ResB) (s' : St) (it : Item)
+    (_hj : items[j]? = some (.connectMitmFail rq rs)) (_hjk : j < k)
+    (hno : ∀ m, m < k → ∀ x, items[m]? = some x → isTlsMitm x = false)
+    (h : at? sd base {} 0 items k = some (s', it)) :
+    Ev.reqmod k (base + k) false false false 0 ∈ runConn sd base items :=
+  cleartext_after_mitm_connect_has_no_tls_state sd base items k s' it hno h
+
+/-- A handshake that fails inside a tunnel leaves that tunnel's session in force. -/
+theorem failed_handshake_inside_tunnel_keeps_the_tunnels_session (s0 : St) (j m k : Nat) (rq rq' : ReqB) (rs rs' : ResB)
+    (s' : St) (it : Item)
+    (hj : items[j]? = some (.connectMitm true rq rs)) (_hm : items[m]? = some (.connectMitmFail rq' rs'))
+    (_hjm : j < m) (hmk : m < k)
+    (hno : ∀ n, j < n → n < k → ∀ x, items[n]? = some x → isTlsMitm x = false)
+    (h : at? sd base s0 0 items k = some (s', it)) :
+    Ev.reqmod k (base + k) true true true (j + 2) ∈ runConnOn s0 sd base items :=
+  tunnel_request_carries_its_tunnels_session sd base items s0 j k rq rs s' it hj (by omega) hno h
+
+/-! ### Upstream: TLS or nothing -/
+
+/-- **Upstream contact on behalf of a secure session is over TLS or does not happen**: whatever the
+exchange (any modifier behaviour, any origin outcome - a failing TLS layer is `Org.fail`), every
+upstream event it produces in a state that is secure or on a TLS connection carries `tls = true`;
+and when the round trip fails the client gets the 502 with its Warning, nothing else. -/
+theorem secure_upstream_is_tls_or_nothing (s : St) (i c : Nat) (it : Item) (hs : (s.secure || s.connTls) = true) :
+    ∀ t, Ev.upstream i t ∈ (handleItem sd s i c it).1 → t = true := by
+  intro t
+  item_cases it then (try (intro ht; simp_all))
+
+theorem failed_secure_round_trip_is_a_502 (s : St) (i c : Nat) (rc : Bool) (hs : (s.secure || s.connTls) = true) :
+    (handleItem sd s i c (.x rc .pass .pass .fail)).1 =
+      pre s i c .pass ++ [.upstream i true, .warnRt i, .resmod i c 502, .write i 502 (rc || sd) true, .unlink c] := by
+  simp [handleItem, handleX, rqSkip, rsErr, stAfter, hs]
+
 /-! Non-vacuity (tests): a transparent-TLS listener connection with a request, a CONNECT with a
 handshake, a request, a CONNECT carrying cleartext, a request, a third CONNECT with a handshake, a
 request: sessions 1, 1, 3, 3, 3, 3, 7. -/
